@@ -65,6 +65,11 @@ def c_prune_case(co):
     return f"({clist(X.c_ledge(e) for e in co['unpruned'])}, {c_nlist(co['removed'])}, {clist(X.c_ledge(e) for e in co['cdg'])})"
 
 
+def c_query_case(triples, obs):
+    o = clist(f"({cN(n)}, {clist(cpair(cN(a), cbool(v)) for a, v in deps)}, {cbool(root)})" for n, deps, root in obs)
+    return f"({clist(X.c_ledge(e) for e in triples)}, {o})"
+
+
 def c_mgr_case(out, truths, hist):
     g = "{| C07.gnodes := %s; C07.gedges := %s; C07.groots := %s |}" % (
         c_nlist(range(len(out["goals"]))), c_edges(out["edges"]), c_nlist(out["roots"]))
@@ -84,7 +89,7 @@ def run_one(src, kw, path, rng):
         res["status"] = f"skipped:instrumentation-error:{type(e).__name__}"
         return res
     out, graph, ffs = I.dump_module(sp, captured)
-    res.update(status="ok", out=out, sp=sp, ffs=ffs)
+    res.update(status="ok", out=out)
     fails = []
     if "error" in out:
         fails.append((f"build:{out['error']}", f"_BranchFitnessGraph raised {out['error']}: {out.get('error_msg', '')}"))
@@ -118,6 +123,25 @@ def run_one(src, kw, path, rng):
         if bad:
             fails.append(("goalgraph:unregistered-dependency", f"predicate {pid} depends on unregistered node {X.ident(bad[0].node)}"))
             break
+    # a goal structurally depends exactly on the goals (predicate of the same code object, outcome) of
+    # its predicate's control dependencies
+    gindex = {g: k for k, g in enumerate(out["goals"])}
+    expected = set()
+    try:
+        for k, g in enumerate(out["goals"]):
+            if g[0] != "B":
+                continue
+            meta = sp.existing_predicates[g[2]]
+            node2pid = {m.node: p for p, m in sp.existing_predicates.items() if m.code_object_id == g[1]}
+            for d in sp.existing_code_objects[g[1]].cdg.get_control_dependencies(meta.node):
+                expected.add((gindex[("B", g[1], node2pid[d.node], bool(d.branch_value))], k))
+    except KeyError:
+        expected = None
+    if expected is not None and expected != set(map(tuple, out["edges"])):
+        wrong = sorted(set(map(tuple, out["edges"])) ^ expected)[0]
+        fails.append(("goalgraph:edges-differ-from-control-dependencies",
+                      f"goal graph edge {out['goals'][wrong[0]]} -> {out['goals'][wrong[1]]} does not correspond to a control "
+                      "dependency of the child's predicate in its own code object (or such an edge is missing)"))
     # root dependence / dependencies must not depend on the insertion order of the CDG edges
     import networkx as nx
     from pynguin.instrumentation import controlflow as cf
@@ -146,6 +170,35 @@ def run_one(src, kw, path, rng):
                 break
         if fails:
             break
+    # every node of every real covered CDG is asked in several orders on the SAME object (the one
+    # the goal graph was built from) and on a fresh object; state carried between queries must
+    # not change an answer.  Answers are compared with the closure reading (S) and with the model (K).
+    res["query_cases"] = []
+    n_before = len(fails)
+    for coid, meta in sorted(sp.existing_code_objects.items()):
+        triples = X.graph_triples(meta.cdg.graph)
+        seed = 31 * len(triples) + coid
+        obs, err = X.query_all(meta.cdg, X.query_orders(meta.cdg, seed))
+        fresh = cf.ControlDependenceGraph(meta.cdg.graph.copy())
+        orders = X.query_orders(fresh, seed + 1)
+        obs2, err2 = X.query_all(fresh, [orders[2], orders[2][::-1], orders[4]])
+        allobs = sorted({(qn, tuple(map(tuple, qd)), qr) for qn, qd, qr in obs + obs2})
+        res["query_cases"].append((coid, triples, [(qn, list(qd), qr) for qn, qd, qr in allobs]))
+        if err or err2:
+            fails.append((f"goalgraph:query-raises:{err or err2}", f"a CDG query of code object {coid} raised"))
+            continue
+        for qn, qd, qr in allobs:
+            d2, r2 = X.queries(triples, qn)
+            if qr != r2:
+                fails.append(("goalgraph:query:root", f"is_control_dependent_on_root(node {qn}) of code object {coid} answered {qr} in one "
+                              f"of several query orders on the same CDG; the CDG edges give {r2}"))
+                break
+            if sorted(qd) != d2:
+                fails.append(("goalgraph:query:dependencies", f"get_control_dependencies(node {qn}) of code object {coid} answered {sorted(qd)} "
+                              f"in one of several query orders; the CDG edges give {d2}"))
+                break
+        if len(fails) > n_before:
+            break
     # goals manager over a random history, and a simulated search that must drain all goals
     truths = []
     for _ in range(rng.choice([1, 3, 6])):
@@ -167,6 +220,14 @@ def run_one(src, kw, path, rng):
         fails.append(("manager:goal-never-offered", f"a search covering every offered goal never covers {[out['goals'][k] for k in left[:4]]}"))
     res["fails"] = fails
     return res
+
+
+def _job(args):
+    import random
+
+    warnings.simplefilter("ignore")
+    src, kw, path, seed = args
+    return run_one(src, kw, path, random.Random(seed))
 
 
 def shrink_module(src, kw, sig, path, rng_seed):
@@ -201,9 +262,10 @@ def run(ctx: vlib.Ctx):
     ctx.coq_static()
     if not ctx.quick:
         ctx.coqchk()
+    ctx.log("static development checked")
     rng = ctx.rng
     scratch = ctx.mkscratch()
-    n_mod = 120 if ctx.quick else 600
+    n_mod = 70 if ctx.quick else 600
     n_cfg = 2 if ctx.quick else 3
     jobs = []
     for k, c in enumerate(json.loads((vlib.VERIF / "corpus" / "C07.json").read_text())):
@@ -217,13 +279,17 @@ def run(ctx: vlib.Ctx):
             s2, kw, desc = I.add_exclusions(rng, src)
             jobs.append((s2, kw, f"generated module #{k} config #{j} ({desc['mode']})"))
             ctx.count("exclusion-mode:" + desc["mode"])
-    build_cases, prune_cases, mgr_cases = [], [], []
-    origin_b, origin_p, origin_m = [], [], []
+    build_cases, prune_cases, mgr_cases, query_cases = [], [], [], []
+    origin_b, origin_p, origin_m, origin_q = [], [], [], []
     n_fail = 0
     failing = set()
-    for idx, (src, kw, origin) in enumerate(jobs):
-        path = scratch / f"genmod_{idx}.py"
-        r = run_one(src, kw, path, rng)
+    shrunk = set()
+    import multiprocessing as mp
+
+    args = [(src, kw, scratch / f"genmod_{idx}.py", rng.getrandbits(48)) for idx, (src, kw, _) in enumerate(jobs)]
+    with mp.Pool(12) as pool:
+        results = pool.map(_job, args, chunksize=4)
+    for idx, ((src, kw, origin), r) in enumerate(zip(jobs, results)):
         ctx.count("status:" + r["status"])
         if r["status"] != "ok":
             continue
@@ -237,8 +303,11 @@ def run(ctx: vlib.Ctx):
             n_fail += 1
             failing.add(idx)
             sig, msg = r["fails"][0]
-            small = shrink_module(src, kw, sig, scratch / "shrink.py", 1)
+            small = shrink_module(src, kw, sig, scratch / "shrink.py", 1) if sig not in shrunk else src
+            shrunk.add(sig)
             ctx.fail(sig, f"{origin}: {msg}", {"origin": origin, "src": small, "to_cover": kw})
+            for sig2, msg2 in r["fails"][1:]:
+                ctx.fail(sig2, f"{origin}: {msg2}", {"origin": origin, "src": src, "to_cover": kw})
         bc = c_build_case(out)
         if bc is not None:
             build_cases.append(bc)
@@ -247,6 +316,10 @@ def run(ctx: vlib.Ctx):
             if c["unpruned"] is not None:
                 prune_cases.append(c_prune_case(c))
                 origin_p.append((idx, c["id"]))
+        for coid, triples, obs in r.get("query_cases", []):
+            if len(triples) > 1:
+                query_cases.append(c_query_case(triples, obs))
+                origin_q.append((idx, coid))
         if "hist" in r:
             mgr_cases.append(c_mgr_case(out, r["truths"], r["hist"]))
             origin_m.append(idx)
@@ -256,12 +329,15 @@ def run(ctx: vlib.Ctx):
             ctx.sample({"origin": origin, "src": src, "to_cover": kw, "goals": out["goals"], "edges": out.get("edges"),
                         "roots": out.get("roots"), "removed_cdg_nodes": [c["removed"] for c in out["cos"]]})
     ctx.leg("S", oracle_failures=n_fail, modules=len(jobs))
+    ctx.log(f"{len(jobs)} module/configuration pairs run on the implementation; {len(prune_cases)} prune, {len(build_cases)} build, "
+            f"{len(query_cases)} query, {len(mgr_cases)} manager cases")
     ctx.cov["rule"] = ("one case per generated module (1-3 functions, optional class and module-level branch; nested/"
                        "sequential branches, loops, try/except/finally, early returns, generators) x exclusion configuration "
                        "(none / inline pragma / only_cover / no_cover names / both); non-trivial = at least one branch goal; "
                        "distinct = distinct (source, configuration)")
 
     def report(name, bad, origins, cases, what):
+        ctx.log(f"{name}: {len(cases)} cases evaluated in Coq")
         if bad is None:
             return
         ctx.leg(name, ok=not bad, evaluated=len(cases), mismatches=len(bad))
@@ -274,14 +350,29 @@ def run(ctx: vlib.Ctx):
                 detail["check_build_code"] = ctx.coq_eval(IMPORTS, "C07.check_build_code " + cases[b])
             ctx.broken(f"correspondence:C07-{name}", what, detail)
 
-    report("K-prune", ctx.run_cases("C07_prune", IMPORTS, "C07.prune_case", "C07.check_prune", prune_cases),
-           origin_p, prune_cases, "the node-removal model does not reproduce InstrumentationTransformer._create_covered_cdg")
-    report("K-build", ctx.run_cases("C07_build", IMPORTS, "C07.build_case", "C07.check_build", build_cases, shard=100),
-           origin_b, build_cases,
-           "the goal-graph model does not reproduce _BranchFitnessGraph (code 1 error kind, 2 edges, 3 roots, 4 premises "
-           "fail, 5 goal not reachable from roots, 6 one side raised)")
-    report("K-manager", ctx.run_cases("C07_mgr", IMPORTS, "C07.mgr_case", "C07.check_mgr", mgr_cases, shard=100),
-           origin_m, mgr_cases, "the update model does not reproduce _GoalsManager.update with the real CoverageArchive")
+    import concurrent.futures as cf_
+
+    def shard(cases):
+        return max(10, -(-len(cases) // 8))
+
+    specs = [
+        ("K-prune", "C07_prune", "C07.prune_case", "C07.check_prune", prune_cases, origin_p,
+         "the node-removal model does not reproduce InstrumentationTransformer._create_covered_cdg"),
+        ("K-queries", "C07_query", "list (N * option bool * N) * list C06.obs",
+         "fun c => forallb (C06.check_obs (fst c)) (snd c)", query_cases, origin_q,
+         "get_control_dependencies / is_control_dependent_on_root of a covered CDG, asked for every node in several "
+         "orders on the same object, do not equal the closure model (C06.deps_model / C06.is_root_model)"),
+        ("K-build", "C07_build", "C07.build_case", "C07.check_build", build_cases, origin_b,
+         "the goal-graph model does not reproduce _BranchFitnessGraph (code 1 error kind, 2 edges, 3 roots, 4 premises "
+         "fail, 5 goal not reachable from roots, 6 one side raised)"),
+        ("K-manager", "C07_mgr", "C07.mgr_case", "C07.check_mgr", mgr_cases, origin_m,
+         "the update model does not reproduce _GoalsManager.update with the real CoverageArchive"),
+    ]
+    with cf_.ThreadPoolExecutor(max_workers=4) as ex:
+        futs = [ex.submit(ctx.run_cases, fname, IMPORTS, ctype, chk, cases, shard(cases)) for _, fname, ctype, chk, cases, _, _ in specs]
+        bads = [f.result() for f in futs]
+    for (name, _, _, _, cases, origins, what), bad in zip(specs, bads):
+        report(name, bad, origins, cases, what)
     ctx.assumptions += [
         "solutions are abstracted to the set of goals they cover (stub chromosomes); the archive is the real CoverageArchive",
         "goal identity = position in the list of fitness functions; CDG node identity as in C06",
